@@ -505,3 +505,82 @@ Section Frame.
     apply apply_versions_frame in H. destruct H as [f' [-> Hf]]. eauto.
   Qed.
 End Frame.
+
+(* ---- Migrate13_3 for an arbitrary tx: the whole of `nodes` keeps its shape, texts change only by tx --------------------- *)
+
+Section Parametric13_3.
+  Variable tx : str -> str.
+
+  Lemma txr_obj_refl : forall o, txr_obj tx o o.
+  Proof. intro o. apply txr_obj_unfold. apply (txr_refl tx (JObj o)). Qed.
+
+  Lemma txr_oset : forall k v v' o, olookup k o = Some v -> txr tx v v' -> txr_obj tx o (oset k v' o).
+  Proof.
+    intros k v v' o. induction o as [|[k0 x] o IH]; cbn [olookup oset]; [discriminate|].
+    destruct (str_eqb k k0) eqn:E; intros H Hv.
+    - inversion H; subst. cbn. split; [reflexivity|]. split; [exact Hv | apply txr_obj_refl].
+    - cbn. split; [reflexivity|]. split; [apply txr_refl | now apply IH].
+  Qed.
+
+  Lemma on_array_member_txr : forall {S} k (step : S -> obj -> S * obj) st o,
+    (forall st a, txr_obj tx a (snd (step st a))) -> txr_obj tx o (snd (on_array_member k step st o)).
+  Proof.
+    intros S k step st o Hs. unfold on_array_member.
+    destruct (olookup k o) as [[| | | |l|]|] eqn:E; cbn [snd]; try apply txr_obj_refl.
+    unfold on_objects.
+    pose proof (map_st_rel (txr tx)
+                  (fun st x => match x with JObj o0 => let '(st', o') := step st o0 in (st', JObj o') | _ => (st, x) end) l st) as Hm.
+    destruct (map_st _ st l) as [st' l']. cbn [snd] in *.
+    apply (txr_oset k (JArr l)); [exact E|]. apply txr_arr_unfold, txr_list_of_Forall2, Hm.
+    intros st0 x. destruct x; try apply txr_refl. specialize (Hs st0 kv). destruct (step st0 kv) as [s1 o1].
+    cbn [snd] in *. now apply txr_obj_unfold.
+  Qed.
+
+  Lemma on_object_member_txr : forall {S} k (step : S -> obj -> S * obj) st o,
+    (forall st a, txr_obj tx a (snd (step st a))) -> txr_obj tx o (snd (on_object_member k step st o)).
+  Proof.
+    intros S k step st o Hs. unfold on_object_member.
+    destruct (olookup k o) as [[| | | | |x]|] eqn:E; cbn [snd]; try apply txr_obj_refl.
+    specialize (Hs st x). destruct (step st x) as [st' x']. cbn [snd] in *.
+    apply (txr_oset k (JObj x)); [exact E | now apply txr_obj_unfold].
+  Qed.
+
+  Lemma txr_obj_trans : forall a b c, txr_obj tx a b -> txr_obj tx b c -> txr_obj tx a c.
+  Proof.
+    intros a b c H1 H2. apply txr_obj_unfold. eapply (txr_trans tx (JObj a) (JObj b) (JObj c)); now apply txr_obj_unfold.
+  Qed.
+
+  Lemma rewrite_all_txr : forall tab st o, txr_obj tx o (snd (rewrite_all tx tab st o)).
+  Proof.
+    intros tab st o. unfold rewrite_all.
+    assert (H : forall ps acc, txr_obj tx (snd acc)
+                 (snd (fold_left (fun (acc : option obj * obj) p => rewrite_templates tx (fst acc) (snd acc) p) ps acc))).
+    { induction ps as [|p ps IH]; intro acc; [apply txr_obj_refl|]. cbn [fold_left].
+      eapply txr_obj_trans; [|apply IH]. unfold rewrite_templates.
+      destruct (parse_path _) as [steps|]; [|apply txr_obj_refl].
+      pose proof (visit_txr tx steps (fst acc) (JObj (snd acc))) as Hv.
+      destruct (visit tx steps (fst acc) (JObj (snd acc))) as [loc' j]. cbn [snd] in *.
+      destruct j; try contradiction. now apply txr_obj_unfold. }
+    specialize (H (catalog_paths tab (type_of o)) (snd st, o)).
+    destruct (fold_left _ (catalog_paths tab (type_of o)) (snd st, o)) as [loc' o']. exact H.
+  Qed.
+
+  Lemma node_13_3_txr : forall st n, txr_obj tx n (snd (node_13_3 tx st n)).
+  Proof.
+    intros st n. unfold node_13_3.
+    pose proof (on_array_member_txr k_actions (rewrite_all tx catalog_actions) st n (rewrite_all_txr catalog_actions)) as H1.
+    destruct (on_array_member k_actions (rewrite_all tx catalog_actions) st n) as [st1 n1]. cbn [snd] in H1.
+    eapply txr_obj_trans; [exact H1|]. apply on_object_member_txr, rewrite_all_txr.
+  Qed.
+
+  (* every member of the definition other than `localization` comes back with its shape, every text in it being the
+     original with tx applied zero or more times; members no catalogue path leads into are covered by the frame lemmas *)
+  Lemma migrate_13_3_parametric : forall fr f k,
+    k <> k_localization -> orel tx (olookup k f) (olookup k (fst (migrate_13_3 tx fr f))).
+  Proof.
+    intros fr f k Hk. unfold migrate_13_3, with_localization.
+    pose proof (on_array_member_txr k_nodes (node_13_3 tx) (fr, get_obj k_localization f) f node_13_3_txr) as H.
+    destruct (on_array_member k_nodes (node_13_3 tx) (fr, get_obj k_localization f) f) as [[fr' loc'] f']. cbn [snd fst] in *.
+    destruct loc' as [l|]; [rewrite olookup_oset_other by congruence|]; now apply txr_lookup.
+  Qed.
+End Parametric13_3.
